@@ -14,6 +14,7 @@ impl Tokenizer {
         let mut previous = None;
         let mut tokens = Vec::new();
         let mut nest_lvl = 0; // Nest level of the comments
+        let mut in_string = false; // Within a cstring nothing starts a comment
 
         for (line_0, line) in asn.lines().enumerate() {
             let mut token = None;
@@ -47,7 +48,11 @@ impl Tokenizer {
                     continue;
                 }
                 // Get rid of one-line comments. Can also happen immediately after closing block comment
+                if char == '"' {
+                    in_string = !in_string;
+                }
                 if nest_lvl == 0
+                    && !in_string
                     && char == '-'
                     && content_iterator.peek().map(|&(_, ch)| ch) == Some('-')
                 {
@@ -55,7 +60,9 @@ impl Tokenizer {
                     break; // ignore rest of the line
                 }
                 match char {
-                    '/' if content_iterator.peek().map(|&(_, ch)| ch) == Some('*') => {
+                    '/' if !in_string
+                        && content_iterator.peek().map(|&(_, ch)| ch) == Some('*') =>
+                    {
                         content_iterator.next(); // remove opening '*'
                         nest_lvl += 1;
                         // a comment separates lexical items like whitespace does
